@@ -4,25 +4,25 @@ import os, sys, json, random, re, collections
 from vlib import runner, tlc
 import concurrent.futures as cf
 
-CONTAIN_KINDS = ["ok", "ok", "ok", "raise", "sysexit", "kbint", "unpicklable_arg", "too_large", "unpicklable_result", "big", "unpicklable_exc"]
+CONTAIN_KINDS = ["ok", "ok", "ok", "raise", "sysexit", "kbint", "unpicklable_arg", "too_large", "unpicklable_result", "big", "unpicklable_exc", "oserror_arg"]
 WORKER_LABELS = ["cq.rlock.acq", "cq.r.poll", "cq.r.recv", "cq.sem.rel", "cq.rlock.rel", "rq.wlock.acq", "rq.w.send",
                  "rq.w.send2", "rq.wlock.rel", "mgmt.try", "mgmt.rel", "init", "start"]
 
 DEFAULTS = dict(ev="", t=-1, u="", pid=-1, kind="", outcome="", bpp=False, twe=False, shut=False, etype="", good=False,
                 cause=False, res=False, wait=False, kill=False, how="", code=0, n=0, same=False, eid=-1, oldeid=-1, maxw=0,
-                nproc=0, broken=False, shutdown=False, oldbroken=False, oldshutdown=False, late=False, nbefore=0, kept=0, pending=[], blockedusers=[],
+                nproc=0, broken=False, shutdown=False, oldbroken=False, oldshutdown=False, late=False, nbefore=0, kept=0, oldalive=0, reason="", pending=[], blockedusers=[],
                 blocked=[], liveprocs=[], unreaped=[], died=[], mgmtalive=False)
 
 
 def normalise(tr, scn):
     out = [dict(DEFAULTS, ev="cfg", maxw=scn["exec"]["max_workers"], res=bool(scn["exec"].get("init_fail")),
-                wait=scn["exec"].get("timeout") is not None, kill=len(scn["users"]) > 1)]
+                wait=scn["exec"].get("timeout") is not None, kill=len(scn["users"]) > 1 and not scn.get("single"))]
     for e in tr:
         d = dict(DEFAULTS)
         ev = e["ev"]
         d["ev"] = ev
         for k in ("t", "u", "pid", "kind", "outcome", "good", "res", "wait", "kill", "how", "n", "same", "maxw", "nproc",
-                  "broken", "shutdown", "late", "nbefore", "kept"):
+                  "broken", "shutdown", "late", "nbefore", "kept", "oldalive", "reason"):
             if k in e and e[k] is not None:
                 d[k] = e[k]
         if "code" in e:
@@ -118,6 +118,15 @@ def fam_respawn_crash(rng):
     u1 += [["wait_all"], ["settle"], ["submit", 95, "probe"], ["wait", 95], ["shutdown", True, False]]
     return dict(exec=dict(kind="plain", max_workers=maxw, timeout=0.5, initializer=rng.random() < 0.3,
                           init_fail=[]), users={"u1": u1}, fam="respawn_crash")
+
+
+def fam_resize_wait(rng):
+    """a shrink requested while work is in flight: idle workers time out while the call waits for the jobs"""
+    n0 = rng.choice([2, 3, 4])
+    n1 = rng.randint(1, n0 - 1)
+    u1 = [["timeouts_off"], ["submit", 1, "long"], ["submit", 2, "ok"], ["wait", 2], ["reuse", n1, {}], ["submit", 3, "ok"], ["wait_all"], ["shutdown", True, False]]
+    helper = [["wait_label", "u1", "sleep"], ["timeouts_on"], ["wait_live", 1], ["timeouts_off"], ["release", 1]]
+    return dict(exec=dict(kind="reusable", max_workers=n0, timeout=0.5), users={"u1": u1, "h": helper}, fam="resize_wait", single=True)
 
 
 def fam_map(rng):
@@ -236,7 +245,7 @@ def fam_reusable(rng):
     return dict(exec=dict(kind="reusable", max_workers=m0, timeout=tmo), users=users, fam="reusable")
 
 
-FAMILIES = dict(map=fam_map, reusable=fam_reusable, respawn_crash=fam_respawn_crash, mixed=fam_mixed, crash=fam_crash, kill=fam_kill, timeout=fam_timeout, saturation=fam_saturation, init=fam_init)
+FAMILIES = dict(resize_wait=fam_resize_wait, map=fam_map, reusable=fam_reusable, respawn_crash=fam_respawn_crash, mixed=fam_mixed, crash=fam_crash, kill=fam_kill, timeout=fam_timeout, saturation=fam_saturation, init=fam_init)
 
 
 def policies(rng, fam):
@@ -245,6 +254,8 @@ def policies(rng, fam):
              change=rng.choice([0.02, 0.05, 0.15]))
     if rng.random() < 0.3:
         p["low"] = [rng.choice(["u", "mgr", "feeder", "W"])]
+    if fam == "resize_wait":
+        p["tp"] = 0.3
     if fam == "respawn_crash":
         p["low"] = [rng.choice(["u", "u", "W", "mgr"])]
         p["kind"] = "prio"
